@@ -100,6 +100,7 @@ func main() {
 			res.Obs = append(res.Obs, core.RunRule(ctx, r)...)
 		}
 		if *tier == "thorough" && !*noEvidence && *only == "" {
+			selftest.VerifDir = *verif
 			st := selftest.Run(ctx, p, *repo)
 			res.Extra["selftest"] = st.Summary
 			for _, o := range st.Obs {
